@@ -2,6 +2,9 @@
 package c07robust
 
 import (
+	"io"
+	"encoding/json"
+	"compress/gzip"
 	"bytes"
 	"fmt"
 	"os"
@@ -104,6 +107,7 @@ func runCase(c Case) vh.Result {
 		panic(err)
 	}
 	reaches, oversize := false, false
+	passedRecords := 0
 	for i, segs := range c.Inputs {
 		in := vh.Expand(segs)
 		if len(in) > 4*(c.MaxMsg+256) {
@@ -127,7 +131,9 @@ func runCase(c Case) vh.Result {
 			res.Violation = vh.Fail("robust:not-counted", "input %d (%d bytes): input counters grew by %v records / %v bytes", i, len(in), n1-n0, b1-b0)
 			return res
 		}
-		_ = r
+		if r.Passed {
+			passedRecords++
+		}
 		// a well-formed record right after the bad one must be processed exactly as on a fresh pipeline
 		for k, s := range sentinels {
 			var rs vh.ProcResult
@@ -140,6 +146,9 @@ func runCase(c Case) vh.Result {
 				res.Violation = vh.Fail("robust:sentinel-corrupted", "sentinel %d after input %d (%.80q): parsed/passed %v/%v, fresh %v/%v", k, i, in, rs.Parsed, rs.Passed, wantSent[k].Parsed, wantSent[k].Passed)
 				return res
 			}
+			if rs.Passed {
+				passedRecords++
+			}
 			for o := range rs.Streams {
 				if !bytes.Equal(rs.Streams[o], wantSent[k].Streams[o]) {
 					res.Violation = vh.Fail("robust:sentinel-corrupted", "sentinel %d after input %d (%.80q): output %d differs from a fresh pipeline\n got  %.200q\n want %.200q", k, i, in, o, rs.Streams[o], wantSent[k].Streams[o])
@@ -151,6 +160,25 @@ func runCase(c Case) vh.Result {
 	if pf := vh.Protect(func() { sp.Flush() }); pf != nil {
 		res.Violation = pf
 		return res
+	}
+	// the records are packed into chunks together: a bad record must not make the chunk that also carries its well-formed
+	// neighbours undecodable. Every chunk decodes (independent decoders) and the chunks of an output hold every passed record.
+	if !c.NoPack {
+		for o, chunks := range sp.Chunks {
+			events := 0
+			for _, ch := range chunks {
+				n, derr := countChunkEvents(ch.ID, ch.Data)
+				if derr != nil {
+					res.Violation = vh.Fail("robust:chunk-undecodable", "output %d (%s): chunk %s (%d bytes), which packs the hostile input together with well-formed records, does not decode: %v", o, sp.OutputNames[o], ch.ID, len(ch.Data), derr)
+					return res
+				}
+				events += n
+			}
+			if events != passedRecords {
+				res.Violation = vh.Fail("robust:chunk-record-count", "output %d (%s): %d records passed the pipeline, the chunks hold %d", o, sp.OutputNames[o], passedRecords, events)
+				return res
+			}
+		}
 	}
 	res.NonTrivial = reaches || oversize
 	if reaches {
@@ -250,4 +278,28 @@ func FuzzPipelineBytes(f *testing.F) {
 			t.Fatalf("VIOLATION key=%s\n%s", r.Violation.Key, r.Violation.Msg)
 		}
 	})
+}
+
+// countChunkEvents decodes a chunk with the harness's own decoders (Forward message, or gzip + JSON array for Datadog).
+func countChunkEvents(id string, data []byte) (int, error) {
+	if strings.HasSuffix(id, ".dd") {
+		zr, err := gzip.NewReader(bytes.NewReader(data))
+		if err != nil {
+			return 0, err
+		}
+		raw, err := io.ReadAll(zr)
+		if err != nil {
+			return 0, err
+		}
+		var arr []map[string]any
+		if err := json.Unmarshal(raw, &arr); err != nil {
+			return 0, err
+		}
+		return len(arr), nil
+	}
+	msg, err := vh.DecodeForwardMessage(data)
+	if err != nil {
+		return 0, err
+	}
+	return len(msg.Events), nil
 }
